@@ -20,9 +20,9 @@ pub fn poison(c: &mut Case) {
         let mut img = image::write_canonical(&a, None);
         img.pop(); // drop the final NUL: the last text is unterminated
         let en = if be { Endian::Big } else { Endian::Little };
-        let _ = c.lib("poison: BinArchive::from_bytes (unterminated)", || BinArchive::from_bytes(&img, en).is_ok());
-        let _ = c.lib("poison: arc::from_bytes (unterminated)", || arc::from_bytes(&img).is_ok());
-        let _ = c.lib("poison: TextArchive::from_bytes (unterminated)", || TextArchive::from_bytes(&img, TextArchiveFormat::ShiftJIS, en).is_ok());
+        let _ = c.lib("poison: BinArchive::from_bytes (unterminated)", || BinArchive::from_bytes(&crate::monitor::tight(&img), en).is_ok());
+        let _ = c.lib("poison: arc::from_bytes (unterminated)", || arc::from_bytes(&crate::monitor::tight(&img)).is_ok());
+        let _ = c.lib("poison: TextArchive::from_bytes (unterminated)", || TextArchive::from_bytes(&crate::monitor::tight(&img), TextArchiveFormat::ShiftJIS, en).is_ok());
     }
     // 2. pack archive whose name runs to the end of the buffer
     let mut p = b"pack\0\x01\0\0".to_vec();
@@ -31,7 +31,7 @@ pub fn poison(c: &mut Case) {
     p.extend_from_slice(&0x18u32.to_be_bytes());
     p.extend_from_slice(&0u32.to_be_bytes());
     p.extend_from_slice(b"junk_name_without_terminator");
-    let _ = c.lib("poison: fe9_arc::parse (unterminated)", || fe9_arc::parse(&p).is_ok());
+    let _ = c.lib("poison: fe9_arc::parse (unterminated)", || fe9_arc::parse(&crate::monitor::tight(&p)).is_ok());
     // 3. encodes that fail half-way: an encodable prefix followed by a character outside Shift-JIS
     let mut a = BinArchive::new(Endian::Little);
     a.allocate_at_end(8);
